@@ -6,6 +6,8 @@ HARNESS_DIR = os.path.join(VERIF, "harness")
 LEAN_DIR = os.path.join(VERIF, "lean")
 HARNESS_BIN = os.path.join(HARNESS_DIR, "target", "release", "mtv-harness")
 DRIVER_BIN = os.path.join(LEAN_DIR, ".lake", "build", "bin", "driver")
+NOLOG_DIR = os.path.join(VERIF, "harness_nolog")
+NOLOG_BIN = os.path.join(NOLOG_DIR, "target", "release", "mtv-harness-nolog")
 MEM_LIMIT_KB = 8_000_000
 
 
@@ -56,6 +58,26 @@ def _run(cmd, lines, what, timeout, tagged=False):
 
 def run_harness(reqs, timeout=1800):
     return _run(HARNESS_BIN, reqs, "harness", timeout, tagged=True)
+
+
+def build_nolog(timeout=3600):
+    """the second harness: /repo built with its DEFAULT features (no `log`, no hooks), public API only"""
+    import shutil
+    lock_src, lock_dst = "/repo/Cargo.lock", os.path.join(NOLOG_DIR, "Cargo.lock")
+    if not os.path.exists(lock_dst) and os.path.exists(lock_src):
+        shutil.copy(lock_src, lock_dst)
+    env = dict(os.environ, CARGO_NET_OFFLINE="true")
+    p = subprocess.run(["cargo", "build", "--release", "--offline"], cwd=NOLOG_DIR, stdout=subprocess.PIPE, stderr=subprocess.STDOUT,
+                       timeout=timeout, env=env)
+    return p.returncode == 0, p.stdout.decode()[-3000:]
+
+
+def run_nolog(reqs, timeout=1800):
+    """rebuilds (incrementally) against /repo's working tree, then runs the requests; None if the default-feature build fails"""
+    ok, out = build_nolog()
+    if not ok:
+        return None, out
+    return _run(NOLOG_BIN, reqs, "nolog harness", timeout, tagged=True), ""
 
 
 def run_driver(reqs, timeout=1800):
